@@ -1,7 +1,8 @@
 import Dasp.Driver.Loop
+import Dasp.Driver.Fork
 open Dasp.Driver
 
--- stub: replaced when property C12 is wired in
 def main : IO Unit := runDriver fun
+  | "fork" :: rest => forkLine rest
   | [] => ""
   | _ => "bad-op"
